@@ -31,7 +31,7 @@ use octseq::Octets;
 use tokio::io::{AsyncRead, AsyncWrite};
 use tokio::net::TcpListener;
 use tokio::sync::watch;
-use tokio::time::{MissedTickBehavior, interval, timeout};
+use tokio::time::{MissedTickBehavior, interval, sleep, timeout};
 use tracing::{error, trace, trace_span, warn};
 
 use crate::net::server::buf::BufSource;
@@ -72,6 +72,10 @@ pub type TcpServer<Svc> = StreamServer<TcpListener, VecBufSource, Svc>;
 /// immediately.
 const MAX_CONCURRENT_TCP_CONNECTIONS: DefMinMax<usize> =
     DefMinMax::new(100, 1, 100000);
+
+/// How often a server that stopped accepting connections because it is at its
+/// connection limit checks whether it is below the limit again.
+const AT_LIMIT_RECHECK_INTERVAL: Duration = Duration::from_millis(100);
 
 //----------- Config ---------------------------------------------------------
 
@@ -546,6 +550,12 @@ where
                         }
                     }
                 }
+
+                // While the server is at its connection limit and configured
+                // not to accept, nothing above notices a connection ending.
+                // Look again shortly so that accepting resumes once the
+                // number of connections has fallen below the limit.
+                _ = sleep(AT_LIMIT_RECHECK_INTERVAL), if !self.accepting_connections() => {}
             }
         }
     }
